@@ -1551,6 +1551,11 @@ fn main() {
                 let wall = if depth >= 8 { 100 } else { tier.pick(30, 32) };
                 r.world(&spend_world(tier, limit, period, start), &Bounds::new(depth, wall));
             }
+            // the limit at the top of the amount type: spends in one window must not be able to sum past it
+            r.world(
+                &Spend { limit: i128::MAX, period: 3, start: 1, amounts: vec![1, 10, i128::MAX - 5, i128::MAX], set_limits: vec![i128::MAX], bulk: vec![], probe_depth: 0, direct_seeds: true },
+                &Bounds::new(tier.pick(4, 5), 20),
+            );
             let mut bulk = bulk_world(tier);
             let mut bulk_depth = tier.pick(4, 6);
             if let Err(msg) = bulk.validate_bulk_seeds() {
